@@ -7,7 +7,7 @@ import Sessions.Model.World
 * pure expiry lemmas about `validFor` / `expired` (C03);
 * the cookie jar only depends on the cookie events, and on the last of them.
 -/
-namespace Sx
+namespace Sx.Loc
 
 /-! ## 1. `matchIP` -/
 
@@ -405,4 +405,4 @@ example : applyCookies {} (some (.gen 0)) [.load (.gen 0) true, .del (.gen 0)] =
 example : applyCookies { maxAge := -1 } (some (.gen 0)) [.setCookie (.gen 1), .del (.gen 0)] = none :=
   applyCookies_dead (by decide) (by decide)
 
-end Sx
+end Sx.Loc
